@@ -1,4 +1,7 @@
+mod fsrun;
 mod names;
+mod spec;
+mod specgen;
 mod util;
 
 fn main() {
@@ -8,6 +11,11 @@ fn main() {
     match cmd {
         "names-gen" => names::cmd_gen(&args),
         "names-impl" => names::cmd_impl(&args),
+        "fs" => fsrun::cmd_fs(&args),
+        "gen-one" => {
+            let _ = std::panic::take_hook(); // default panic output, like the CLI
+            fsrun::cmd_gen_one(&args)
+        }
         _ => {
             eprintln!("unknown command {cmd}");
             std::process::exit(2);
